@@ -47,13 +47,31 @@ VOPS = {
 MUTATING = {"push", "push_front", "insert", "pop", "swap", "resize", "assign", "clear", "sort", "set", "add_assign", "sub_assign",
             "add_assign_s", "sub_assign_s", "mul_assign_s", "div_assign_s", "clone_mut"}
 
+# (specB) extended ops: executor-side only (harness/src/k_vector.rs), no constructor in coq/Model/Vector.v -- a history that
+# contains one of them is SEARCH-ONLY (term None) and is judged by the plain-list reference model below.
+# kinds: n nat, s scalar, v vector, f an f64 scalar whatever the element type
+XOPS = {
+    "cmp": "v", "cmp_self": "", "dot_self": "", "add_self": "", "sub_self": "", "field": "",
+    "sort_desc": "", "sort_absdesc": "", "clone_into": "v", "clone_from": "v",
+    "norms": "f", "scale_l": "f", "cxview": "", "dot_f64": "v",
+}
+XMUTATING = {"sort_desc", "sort_absdesc", "clone_from"}
+MUTATING |= XMUTATING
+
+def op_kinds(name):
+    return VOPS[name][1] if name in VOPS else XOPS[name]
+
+def is_extended(ops):
+    return any(o[0] in XOPS for o in ops)
+
 def vop_line(elt, op):
     name, args = op[0], op[1:]
     toks = [name]
-    for k, a in zip(VOPS[name][1], args):
+    for k, a in zip(op_kinds(name), args):
         if k == "n": toks.append(str(a))
         elif k == "s": toks.append(tok_scalar(elt, a))
         elif k == "v": toks.append(tok_vec(elt, a))
+        elif k == "f": toks.append(tok_scalar('f64', a))
     toks.append(";")
     return " ".join(toks)
 
@@ -161,7 +179,45 @@ def ref_vstep(elt, v, op):
     if name == "abs": return ('v', [_abs(elt, x) for x in v])
     if name == "norm_1": return ('s', sum((_abs(elt, x) for x in v), zero))
     if name == "clone_mut": v.append(a[0]); return None
+    # ---- (specB) extended ops
+    if name == "cmp":
+        e = len(v) == len(a[0]) and all(x == y for x, y in zip(v, a[0]))
+        return ('items', [('i', int(e)), ('i', int(not e))])
+    if name == "cmp_self": return ('items', [('i', 1), ('i', 0)] * 3)        # finite entries only (no NaN is ever generated)
+    if name == "dot_self": return ('s', sum((_mul(elt, x, x) for x in v), zero))
+    if name == "add_self": return ('v', [x + x for x in v])
+    if name == "sub_self": return ('v', [x - x for x in v])
+    if name == "field": return ('v', list(v))
+    if name == "sort_desc": v.sort(key=lambda x: _key(elt, x), reverse=True); return None
+    if name == "sort_absdesc": v.sort(key=lambda x: (abs(x), x), reverse=True); return None
+    if name == "clone_into": return ('v', list(v))
+    if name == "clone_from": v[:] = list(a[0]); return None
+    if name == "norms":
+        _chk(len(v) > 0)                      # norm_inf panics on the empty vector; the executor emits nothing before the panic
+        p = a[0]
+        n1 = 0.0
+        for x in v: n1 = n1 + abs(x)
+        n2 = 0.0
+        for x in v: n2 = n2 + abs(x) * abs(x)
+        npp = 0.0
+        for x in v: npp = npp + math.pow(abs(x), p)
+        return ('items', [('f', f64_bits(y)) for y in (n1, math.sqrt(n2), math.pow(npp, 1.0 / p), max(abs(x) for x in v))])
+    if name == "scale_l": return ('v', [a[0] * x for x in v])
+    if name == "cxview":
+        _chk(len(v) > 0)
+        ab = [_abs('cplx', z) for z in v]
+        return ('items', ref_items_v('cplx', [z.conjugate() for z in v]) + ref_items_v('f64', [z.real for z in v]) +
+                ref_items_v('cplx', ab) + [('f', f64_bits(max(z.real for z in ab)))])
+    if name == "dot_f64":
+        _chk(len(a[0]) == len(v))
+        d = sum((x * y for x, y in zip(v, a[0])), zero)
+        return ('items', [('i', None), ('f', f64_bits(d)), ('f', f64_bits(d)), ('f', f64_bits(d))])
     raise ValueError(name)
+
+def _mul(elt, x, y):
+    """product as the library forms it (Complex<f64>: (ac - bd, ad + bc), every operation rounded)"""
+    if elt == 'cplx': return complex(x.real * y.real - x.imag * y.imag, x.real * y.imag + x.imag * y.real)
+    return x * y
 
 def ref_items_s(elt, x):
     if elt == 'rat':
@@ -183,7 +239,8 @@ def ref_vhist(elt, v0, ops):
         try:
             r = ref_vstep(elt, v, op)
             if r is not None:
-                out += ref_items_s(elt, r[1]) if r[0] == 's' else (ref_items_v(elt, r[1]) if r[0] == 'v' else [('i', r[1])])
+                if r[0] == 'items': out += r[1]
+                else: out += ref_items_s(elt, r[1]) if r[0] == 's' else (ref_items_v(elt, r[1]) if r[0] == 'v' else [('i', r[1])])
             if op[0] in MUTATING: out += ref_items_v(elt, v)
         except RefPanic:
             v = snap
@@ -203,6 +260,7 @@ def streams_match(exp, got, rtol):
         if a[0] != b[0]:
             return "item %d: reference %r, implementation %r" % (k, a, b)
         if a[0] in ('P', 'f'): continue
+        if a[0] == 'i' and a[1] is None: continue          # an integer the reference does not predict (num_cpus::get())
         if a != b:
             return "item %d: reference %r, implementation %r" % (k, a, b)
     for g in groups_of_floats(exp):
